@@ -199,11 +199,24 @@ pub fn shape(cap: usize, order: u8) {
             vassert!(blocks() == (a0 + 1, f0), "C03:shared block released while the collection still refers to it");
             drop(list);
         }
-        _ => {
+        2 => {
             // wake by value consumes the last owner
             drop(list);
             w1.wake();
             vassert!(gh.task_wakes[0] == reg as usize, "C03:wake after the collection is gone did something else than waking the registered task");
+        }
+        _ => {
+            // redundant wakes of an ALREADY QUEUED slot: by ref, then by value
+            // (consumes the clone); then the collection goes away
+            list.push(i);
+            let w2 = w1.clone();
+            w1.wake_by_ref();
+            w2.wake();
+            vassert!(gh.task_wakes[0] == 0, "C14:wake of an already queued slot notified the task");
+            vassert!(blocks() == (a0 + 1, f0), "C03:shared block released while owners exist");
+            w1.wake();
+            vassert!(blocks() == (a0 + 1, f0), "C03:shared block released while the collection still refers to it");
+            drop(list);
         }
     }
     vassert!(gh.task_wakes[1] == 0, "C03:a waker that was never registered was invoked");
